@@ -60,6 +60,15 @@ def gen_cases(tier, seed):
                           "poor_trial": True, "noise": 0.3, "steps": 60 if q else 300, "qr_every": 10, "sr_every": 10 ** 9, "inject": True,
                           "inject_every": 3, "only_huge": True, "small_weights": True, "fscale": 1.0, "s": int(rng.integers(1 << 30)),
                           "kind": "rhf" if p == "restricted" else "uhf", "group": "hs-%s-%d" % (p, rep), "cost": 6})
+    # heavy walkers meeting a tiny step factor: before every 4th step the (hostile) driver makes the walkers heavy (weights 20..60, below
+    # the cap) and lowers the incoming shift so that the factors |I| cos(theta) straddle 1e-3 - a factor below the window must kill the
+    # walker however heavy it is (factor x weight may well stay above 1e-3)
+    for p in PHASELESS:
+        for rep in range(3 if q else 15):
+            cases.append({"type": "history", "prop": p, "dt": float(rng.choice([0.01, 0.05])), "strength": float(rng.choice([0.5, 1.0])), "u": 4.0,
+                          "poor_trial": False, "noise": 0.1, "steps": 40 if q else 200, "qr_every": 10, "sr_every": 10 ** 9, "inject": False,
+                          "heavy_tiny": True, "fscale": 1.0, "s": int(rng.integers(1 << 30)), "kind": "rhf" if p == "restricted" else "uhf",
+                          "group": "ht-%s-%d" % (p, rep), "cost": 6})
     for wt in ("rhf", "uhf"):
         for rep in range(6 if q else 30):
             cases.append({"type": "sampler", "wt": wt, "dt": float(10.0 ** rng.uniform(-4, 0.3)), "strength": float(rng.choice([0.3, 1.0, 3.0, 5.0])),
@@ -218,6 +227,16 @@ def run_history(case):
             cnt["injections"] += 1
             if np.asarray(pd["weights"])[r] > 0:
                 inj_applied_live += 1
+        if case.get("heavy_tiny") and step % 4 == 3 and float(jnp.sum(pd["weights"])) > 0:
+            alive_now = np.asarray(pd["weights"]) > 0
+            probe = prop.propagate(trial, hd, afqmc.copy_pd(pd), jnp.array(fields), wd)
+            f_probe = np.asarray(probe["weights"])[alive_now] / np.asarray(pd["weights"])[alive_now]
+            f_probe = f_probe[f_probe > 0]
+            if f_probe.size:
+                heavy = np.where(alive_now, rng.uniform(20.0, 60.0, size=nw), 0.0)
+                pd["weights"] = jnp.array(heavy)
+                pd["pop_control_ene_shift"] = pd["pop_control_ene_shift"] + math.log(1e-3 / float(np.median(f_probe))) / case["dt"]
+                cnt["heavy_tiny_steps"] = cnt.get("heavy_tiny_steps", 0) + 1
         w_prev = np.asarray(pd["weights"]).copy()
         pd = prop.propagate(trial, hd, pd, jnp.array(fields), wd)
         cnt["steps_observed"] += 1
